@@ -8,6 +8,7 @@ From KV Require Import Base.Prelude Base.Xxh32 Model.Codecs Model.Responses Mode
 From KV Require Import Proofs.C12Extra.
 From KV Require Import Proofs.C12ExtraB.
 From KV Require Import Proofs.C12ExtraC.
+From KV Require Import Proofs.C12ExtraE.
 Theorem C12_explicit : forall parts cntr topic p key, 0 <= p -> partition parts cntr topic p key = (p, cntr).
 Proof. exact C12Facts.C12_explicit. Qed.
 
@@ -300,3 +301,74 @@ Print Assumptions C12_send_all_any_negative.
 Print Assumptions C12_rotation_across_wrap.
 Print Assumptions C12_calls_counter.
 Print Assumptions C12_calls_counter_closed.
+
+Theorem C12_partition_count_after_update :
+  forall (s : cstate) (md : metadata_resp) (s' : cstate) (t : bytes) (tm : topic_md), update_metadata s md = Ok s' -> C6.last_topic (md_topics md) t = Some tm -> exists l : list Z, partitions_for s' t = Some l /\ length l = length (tm_partitions tm).
+Proof. exact (@C12ExtraE.C12_partition_count_after_update). Qed.
+
+Theorem C12_partition_count_unlisted :
+  forall (s : cstate) (md : metadata_resp) (s' : cstate) (t : bytes), update_metadata s md = Ok s' -> C6.last_topic (md_topics md) t = None -> partitions_for s' t = partitions_for s t.
+Proof. exact (@C12ExtraE.C12_partition_count_unlisted). Qed.
+
+Theorem C12_snapshot_after_update :
+  forall (s : cstate) (md : metadata_resp) (s' : cstate) (t : bytes) (tm : topic_md), update_metadata s md = Ok s' -> C6.last_topic (md_topics md) t = Some tm -> exists ps : pparts, assoc_bytes t (producer_state s') = Some ps /\ num_all ps = ulen (tm_partitions tm) /\ (forall id : Z, In id (available_ids ps) -> 0 <= id < ulen (tm_partitions tm) /\ (exists host : bytes, find_broker s' t id = Some host)).
+Proof. exact (@C12ExtraE.C12_snapshot_after_update). Qed.
+
+Theorem C12_keyed_after_update :
+  forall (s : cstate) (md : metadata_resp) (s' : cstate) (t : bytes) (tm : topic_md) (cntr p : Z) (k : bytes), update_metadata s md = Ok s' -> C6.last_topic (md_topics md) t = Some tm -> p < 0 -> 0 < ulen (tm_partitions tm) <= 2147483648 -> partition (producer_state s') cntr t p (Some k) = (xxh32 0 k mod ulen (tm_partitions tm), cntr) /\ 0 <= xxh32 0 k mod ulen (tm_partitions tm) < ulen (tm_partitions tm).
+Proof. exact (@C12ExtraE.C12_keyed_after_update). Qed.
+
+Theorem C12_keyed_same_across_histories :
+  forall (s1 : cstate) (md1 : metadata_resp) (s1' s2 : cstate) (md2 : metadata_resp) (s2' : cstate) (t : bytes) (tm1 tm2 : topic_md) (c1 c2 p : Z) (k : bytes), update_metadata s1 md1 = Ok s1' -> update_metadata s2 md2 = Ok s2' -> C6.last_topic (md_topics md1) t = Some tm1 -> C6.last_topic (md_topics md2) t = Some tm2 -> length (tm_partitions tm1) = length (tm_partitions tm2) -> p < 0 -> fst (partition (producer_state s1') c1 t p (Some k)) = fst (partition (producer_state s2') c2 t p (Some k)).
+Proof. exact (@C12ExtraE.C12_keyed_same_across_histories). Qed.
+
+Theorem C12_keyless_after_update_in_range :
+  forall (s : cstate) (md : metadata_resp) (s' : cstate) (t : bytes) (tm : topic_md) (cntr p : Z), update_metadata s md = Ok s' -> C6.last_topic (md_topics md) t = Some tm -> p < 0 -> fst (partition (producer_state s') cntr t p None) < ulen (tm_partitions tm) /\ (0 <= fst (partition (producer_state s') cntr t p None) -> exists host : bytes, find_broker s' t (fst (partition (producer_state s') cntr t p None)) = Some host).
+Proof. exact (@C12ExtraE.C12_keyless_after_update_in_range). Qed.
+
+Theorem C12_rotation_after_update :
+  forall (s : cstate) (md : metadata_resp) (s' : cstate) (t : bytes) (tm : topic_md) (cntr : Z) (ps : pparts), update_metadata s md = Ok s' -> C6.last_topic (md_topics md) t = Some tm -> assoc_bytes t (producer_state s') = Some ps -> available_ids ps <> [] -> 0 <= cntr -> cntr + ulen (available_ids ps) <= 4294967296 -> let window := fst (keyless_run (producer_state s') cntr t (length (available_ids ps))) in NoDup window /\ (forall id : Z, In id window -> 0 <= id < ulen (tm_partitions tm)) /\ (forall id : Z, In id window <-> (exists host : bytes, find_broker s' t id = Some host)) /\ (length window <= length (tm_partitions tm))%nat.
+Proof. exact (@C12ExtraE.C12_rotation_after_update). Qed.
+
+Theorem C12_available_after_update :
+  forall (s : cstate) (md : metadata_resp) (s' : cstate) (t : bytes) (tm : topic_md) (ps : pparts) (k l : Z), C6.inv s -> ulen (brokers s) + ulen (md_brokers md) <= UNKNOWN_BROKER_INDEX -> update_metadata s md = Ok s' -> C6.last_topic (md_topics md) t = Some tm -> assoc_bytes t (producer_state s') = Some ps -> 0 <= k < ulen (tm_partitions tm) -> C6.listed_leader (tm_partitions tm) k = Some l -> In k (available_ids ps) <-> (exists m : broker_md, C6.last_broker (md_brokers md) l = Some m) \/ (exists h : bytes, assoc_z l (map C6.bpair (brokers s)) = Some h).
+Proof. exact (@C12ExtraE.C12_available_after_update). Qed.
+
+Theorem C12_create_from_client_keeps_metadata :
+  forall (c0 : Net.client) (calls : list pbuilder_call) (s : Net.st) (p : producer) (s' : Net.st), producer_create (inr c0) calls s = (Ok p, s') -> Net.cs (Net.cl s') = Net.cs (Net.cl s) /\ Net.conns (Net.cl s') = Net.conns (Net.cl s) /\ Net.script s' = Net.script s /\ Net.trace s' = Net.trace s /\ p_parts p = producer_state (Net.cs (Net.cl s)) /\ p_cntr p = 0.
+Proof. exact (@C12ExtraE.C12_create_from_client_keeps_metadata). Qed.
+
+Theorem C12_from_client_after_load :
+  forall (topics : list bytes) (s0 s1 : Net.st) (c0 : Net.client) (calls : list pbuilder_call) (p : producer) (s2 : Net.st), Client.load_metadata topics s0 = (Ok tt, s1) -> producer_create (inr c0) calls s1 = (Ok p, s2) -> exists (md : metadata_resp) (sx : Net.st), Client.fetch_metadata topics s0 = (Ok md, sx) /\ p_cntr p = 0 /\ (forall (t : bytes) (tm : topic_md), C6.last_topic (md_topics md) t = Some tm -> exists ps : pparts, assoc_bytes t (p_parts p) = Some ps /\ num_all ps = ulen (tm_partitions tm) /\ (forall id : Z, In id (available_ids ps) -> 0 <= id < ulen (tm_partitions tm) /\ (exists host : bytes, find_broker (Net.cs (Net.cl s2)) t id = Some host)) /\ (forall (cntr pn : Z) (k : bytes), pn < 0 -> 0 < ulen (tm_partitions tm) <= 2147483648 -> partition (p_parts p) cntr t pn (Some k) = (xxh32 0 k mod ulen (tm_partitions tm), cntr)) /\ (forall cntr pn : Z, pn < 0 -> fst (partition (p_parts p) cntr t pn None) < ulen (tm_partitions tm))) /\ (forall t : bytes, C6.last_topic (md_topics md) t = None -> option_map num_all (assoc_bytes t (p_parts p)) = option_map ulen (partitions_for (Net.cs (Net.cl s0)) t)).
+Proof. exact (@C12ExtraE.C12_from_client_after_load). Qed.
+
+Theorem C12_send_all_after_load :
+  forall (topics : list bytes) (s0 s1 : Net.st) (c0 : Net.client) (calls : list pbuilder_call) (p : producer) (s2 : Net.st) (p' : producer) (recs : list record) (s : Net.st), Client.load_metadata topics s0 = (Ok tt, s1) -> producer_create (inr c0) calls s1 = (Ok p, s2) -> p_parts p' = p_parts p -> exists (md : metadata_resp) (sx : Net.st) (msgs : list Client.produce_message), Client.fetch_metadata topics s0 = (Ok md, sx) /\ producer_send_all p' recs s = Net.mbind (Client.internal_produce_messages (p_acks p') (p_ack_timeout p') msgs) (fun cf : list Client.confirm => Net.ret (cf, producer_set_cntr p' (snd (assign (p_parts p') (p_cntr p') recs)))) s /\ length msgs = length recs /\ (forall (i : nat) (r : record) (tm : topic_md), nth_error recs i = Some r -> r_partition r < 0 -> C6.last_topic (md_topics md) (r_topic r) = Some tm -> exists q : Z, nth_error msgs i = Some {| Client.pq_topic := r_topic r; Client.pq_partition := q; Client.pq_key := to_option (r_key r); Client.pq_value := to_option (r_value r) |} /\ (r_key r <> [] -> 0 < ulen (tm_partitions tm) <= 2147483648 -> q = xxh32 0 (r_key r) mod ulen (tm_partitions tm)) /\ (r_key r = [] -> q < ulen (tm_partitions tm))).
+Proof. exact (@C12ExtraE.C12_send_all_after_load). Qed.
+
+Theorem C12_create_from_hosts_snapshot :
+  forall (hs : list bytes) (calls : list pbuilder_call) (s : Net.st) (p : producer) (s' : Net.st), producer_create (inl hs) calls s = (Ok p, s') -> exists (s1 : Net.st) (md : metadata_resp) (sx : Net.st), Net.script s1 = Net.script s /\ Net.trace s1 = Net.trace s /\ Client.fetch_metadata [] (C6X.reset_st s1) = (Ok md, sx) /\ p_cntr p = 0 /\ (forall (t : bytes) (tm : topic_md), C6.last_topic (md_topics md) t = Some tm -> exists ps : pparts, assoc_bytes t (p_parts p) = Some ps /\ num_all ps = ulen (tm_partitions tm) /\ (forall id : Z, In id (available_ids ps) -> 0 <= id < ulen (tm_partitions tm) /\ (exists host : bytes, find_broker (Net.cs (Net.cl s')) t id = Some host)) /\ (forall (cntr pn : Z) (k : bytes), pn < 0 -> 0 < ulen (tm_partitions tm) <= 2147483648 -> partition (p_parts p) cntr t pn (Some k) = (xxh32 0 k mod ulen (tm_partitions tm), cntr))) /\ (forall t : bytes, C6.last_topic (md_topics md) t = None -> assoc_bytes t (p_parts p) = None /\ (forall (cntr pn : Z) (key : option bytes), pn < 0 -> partition (p_parts p) cntr t pn key = (pn, cntr))).
+Proof. exact (@C12ExtraE.C12_create_from_hosts_snapshot). Qed.
+
+Theorem C12_partition_count_after_history :
+  forall (ops : list (option metadata_resp)) (s s' : cstate) (t : bytes), fold_left C6.step_c ops (Ok s) = Ok s' -> match hist_listing ops t with | Some (Some tm) => exists l : list Z, partitions_for s' t = Some l /\ length l = length (tm_partitions tm) | Some None => partitions_for s' t = None | None => partitions_for s' t = partitions_for s t end.
+Proof. exact (@C12ExtraE.C12_partition_count_after_history). Qed.
+
+Theorem C12_keyed_after_history :
+  forall (ops : list (option metadata_resp)) (s s' : cstate) (t : bytes) (cntr p : Z) (k : bytes), fold_left C6.step_c ops (Ok s) = Ok s' -> p < 0 -> match hist_listing ops t with | Some (Some tm) => 0 < ulen (tm_partitions tm) <= 2147483648 -> partition (producer_state s') cntr t p (Some k) = (xxh32 0 k mod ulen (tm_partitions tm), cntr) | Some None => partition (producer_state s') cntr t p (Some k) = (p, cntr) /\ partition (producer_state s') cntr t p None = (p, cntr) | None => fst (partition (producer_state s') cntr t p (Some k)) = fst (partition (producer_state s) cntr t p (Some k)) end.
+Proof. exact (@C12ExtraE.C12_keyed_after_history). Qed.
+
+Print Assumptions C12_partition_count_after_update.
+Print Assumptions C12_partition_count_unlisted.
+Print Assumptions C12_snapshot_after_update.
+Print Assumptions C12_keyed_after_update.
+Print Assumptions C12_keyed_same_across_histories.
+Print Assumptions C12_keyless_after_update_in_range.
+Print Assumptions C12_rotation_after_update.
+Print Assumptions C12_available_after_update.
+Print Assumptions C12_create_from_client_keeps_metadata.
+Print Assumptions C12_from_client_after_load.
+Print Assumptions C12_send_all_after_load.
+Print Assumptions C12_create_from_hosts_snapshot.
+Print Assumptions C12_partition_count_after_history.
+Print Assumptions C12_keyed_after_history.
